@@ -69,23 +69,76 @@ def check_copydimension(ctx, rule='R-UNLIM'):
     mod = ctx.src.mod('core/_files.py')
     fn = mod.func('PseudoNetCDFFile.copyDimension')
     where = 'src/PseudoNetCDF/core/_files.py PseudoNetCDFFile.copyDimension'
-    txt = ' ; '.join(norm(s) for s in fn.body)
-    # default of the flag
-    dflt = any(isinstance(st, ast.If) and norm(st.test) == 'unlimited is None' and
-               any(norm(s) == 'unlimited = dim.isunlimited()' for s in st.body) for st in fn.body)
-    top = [st for st in fn.body if isinstance(st, ast.If) and 'isinstance(self, netcdf)' in norm(st.test)]
-    ok_nc = ok_pnc = False
-    if top:
-        t = top[0]
-        inner = [s for s in t.body if isinstance(s, ast.If) and norm(s.test) == 'unlimited']
-        if inner:
-            a = ' '.join(norm(s) for s in inner[0].body)
-            b = ' '.join(norm(s) for s in inner[0].orelse)
-            ok_nc = 'createDimension(key, None)' in a and 'createDimension(key, dimlen)' in b
-        e = t.orelse
-        names = [s.targets[0].id for s in e if isinstance(s, ast.Assign) and isinstance(s.value, ast.Call)
-                 and (dotted(s.value.func) or '').endswith('createDimension') and isinstance(s.targets[0], ast.Name)]
-        ok_pnc = bool(names) and any(isinstance(s, ast.Expr) and norm(s) == '%s.setunlimited(unlimited)' % names[0] for s in e)
+    # path-wise (paths.py): the spelling of the branches (if/else, early return, conditional expression, negated test) is immaterial
+    from .. import paths as _paths
+    from ..unlim import _calls_isunlimited
+    ps = _paths.function_paths(fn)
+    flag = next((a.arg for a in fn.args.args if a.arg == 'unlimited'), None)
+    if flag is None or len(fn.args.args) < 2:
+        raise AnalysisError('construct not understood: copyDimension has no unlimited parameter')
+    dimp = fn.args.args[1].arg
+    dflt, ok_nc, ok_pnc = True, True, True
+    seen_nc = seen_pnc = seen_dflt = False
+
+    def is_kind_test(e):
+        return isinstance(e, ast.Call) and isinstance(e.func, ast.Name) and e.func.id == 'isinstance' and e.args and norm(e.args[0]) == 'self'
+    for pth in ps:
+        if pth.exit[0] == 'raise':
+            continue
+        # (1) the flag defaults to the source dimension's and is not otherwise rebound
+        isnone = pth.polarity('%s is None' % flag)
+        sets = [st for st in pth.stmts if isinstance(st, ast.Assign) and any(isinstance(t, ast.Name) and t.id == flag for t in st.targets)
+                and not (isinstance(st.value, ast.Name) and st.value.id == flag)]
+        if isnone is True:
+            seen_dflt = True
+            if not (len(sets) == 1 and _calls_isunlimited(sets[0].value) and dimp + '.isunlimited()' in norm(sets[0].value)
+                    and norm(sets[0].value).count(' and ') == 0 and norm(sets[0].value).count(' or ') == 0):
+                dflt = False
+        elif sets:
+            dflt = False
+        # (2) what is created
+        created = pth.calls(attr='createDimension')
+        if not created:
+            continue
+        kind = pth.decided(is_kind_test)
+        nc = kind[-1][1] if kind and 'netcdf' in norm(kind[-1][0]) else None
+        ul = pth.polarity(flag)
+        call, cst = created[-1]
+        length = call.args[1] if len(call.args) > 1 else next((k.value for k in call.keywords if k.arg in ('length', 'size')), None)
+        if len(created) != 1 or length is None:
+            ok_nc = ok_pnc = False
+            continue
+        bound = [t.id for t in getattr(cst, 'targets', []) if isinstance(t, ast.Name)] if isinstance(cst, ast.Assign) and cst.value is call else []
+        ret = pth.exit[1] if pth.exit[0] == 'return' else None
+        returned = ret is not None and ((isinstance(ret, ast.Name) and ret.id in bound) or (isinstance(ret, ast.Call) and norm(ret) == norm(call))
+                                        or (cst is not None and isinstance(ret, ast.Call) and ret is call))
+        if pth.exit[0] == 'return' and isinstance(ret, ast.Call) and norm(ret.func) == norm(call.func):
+            returned = True
+        if nc is True:
+            seen_nc = True
+            good = (ul is True and isinstance(length, ast.Constant) and length.value is None) or \
+                   (ul is False and isinstance(length, ast.Name) and length.id == 'dimlen')
+            if not (good and returned):
+                ok_nc = False
+        elif nc is False:
+            seen_pnc = True
+            sus = [c for c, st in pth.calls(attr='setunlimited') if (isinstance(c.func.value, ast.Name) and c.func.value.id in bound) or
+                   (isinstance(c.func.value, ast.Call) and norm(c.func.value) == norm(call))]
+            if sus:
+                a0 = sus[-1].args[0] if sus[-1].args else None
+                flag_ok = (isinstance(a0, ast.Name) and a0.id == flag) or (isinstance(a0, ast.Constant) and ul is not None and a0.value is ul)
+            else:
+                flag_ok = ul is False
+            chained = any(isinstance(c.func.value, ast.Call) for c in sus)
+            if not (flag_ok and isinstance(length, ast.Name) and length.id == 'dimlen' and (returned or chained)):
+                ok_pnc = False
+        else:
+            # a dimension created without looking at the kind of file: netCDF4 dimensions have no setunlimited, in-memory ones no None length
+            ok_nc = ok_pnc = False
+    dflt = dflt and seen_dflt
+    ok_nc = ok_nc and seen_nc
+    ok_pnc = ok_pnc and seen_pnc
+    single = True
     # optional parameters are tested with `is None` (0 is a valid length, '' is not a valid key but truthiness would also swallow 0)
     from .. import lints
     tg = lints.truthy_optional_guards(fn, ('dimlen', 'unlimited'))   # key is a name: '' is not a valid key, so truthiness is harmless there
@@ -98,8 +151,6 @@ def check_copydimension(ctx, rule='R-UNLIM'):
         ctx.rule('R-NONEGUARD', "optional numeric parameters are tested with 'is None' (0 is a valid value)")
         ctx.ok('R-NONEGUARD', 'copyDimension: optional parameters tested with is None', where, 'dimlen/key/unlimited')
     # no re-assignment of the flag
-    reass = [st for st in iter_stmts(fn.body) if isinstance(st, ast.Assign) and any(isinstance(t, ast.Name) and t.id == 'unlimited' for t in st.targets)]
-    single = len(reass) == 1
     for ok, oid, msg in ((dflt and single, 'flag default', 'the flag must default to dim.isunlimited() and not be reassigned'),
                          (ok_nc, 'netCDF branch', 'an unlimited source dimension must be created with size None on disk'),
                          (ok_pnc, 'in-memory branch', 'the new dimension must receive setunlimited(unlimited)')):
@@ -379,12 +430,34 @@ def check_varstore(ctx):
     else:
         ctx.violation(Finding('R-VARSTORE', 'core/_files.py', 'PseudoNetCDFFile.reorderDimensions', 'outf.variables[vk] = newvals',
                               'the reordered array is stored without rebuilding its dimension tuple', lineno=mod.func('PseudoNetCDFFile.reorderDimensions').lineno))
-    t = norm(mod.func('PseudoNetCDFFile.eval'))
-    if 'isinstance(val, (PseudoNetCDFVariable,)) and val.dimensions != ()' in t:
-        ctx.ok('R-VARSTORE', 'eval: direct store guarded', 'src/PseudoNetCDF/core/_files.py PseudoNetCDFFile.eval', 'only dimensioned PseudoNetCDFVariable results')
+    # eval: every path that stores a computed object directly in the variable table has established that it is a
+    # PseudoNetCDFVariable with a non-empty dimension tuple (path-wise, temporaries and named conditions substituted)
+    from .. import paths as _paths
+    evf = mod.func('PseudoNetCDFFile.eval')
+    nstore, unguarded = 0, None
+    for lp in [st for st in iter_stmts(evf.body) if isinstance(st, ast.For)]:
+        for pth in _paths.enumerate_paths(lp.body):
+            res = _paths.expand(pth)
+            if not res.feasible:
+                continue
+            for st, new in res.stmts:
+                if isinstance(new, ast.Assign) and isinstance(new.targets[0], ast.Subscript) and norm(new.targets[0].value).endswith('.variables') \
+                        and not (isinstance(new.value, ast.Call) and (dotted(new.value.func) or '').split('.')[-1] in ('createVariable', 'copyVariable')):
+                    nstore += 1
+                    v = norm(new.value)
+                    isvar = any(p_ is True and isinstance(x, ast.Call) and dotted(x.func) == 'isinstance' and len(x.args) == 2 and norm(x.args[0]) == v
+                                and 'PseudoNetCDFVariable' in norm(x.args[1]) for e_, x, p_ in res.conds)
+                    hasdims = any(p_ is False and isinstance(x, ast.Compare) and norm(x) in ('%s.dimensions == ()' % v, '() == %s.dimensions' % v) for e_, x, p_ in res.conds) or \
+                        any(p_ is True and norm(x) in ('%s.dimensions' % v, 'len(%s.dimensions) > 0' % v) for e_, x, p_ in res.conds)
+                    if not (isvar and hasdims):
+                        unguarded = unguarded or st
+    if nstore == 0:
+        ctx.ok('R-VARSTORE', 'eval: direct store guarded', 'src/PseudoNetCDF/core/_files.py PseudoNetCDFFile.eval', 'no direct store: every result goes through createVariable')
+    elif unguarded is None:
+        ctx.ok('R-VARSTORE', 'eval: direct store guarded', 'src/PseudoNetCDF/core/_files.py PseudoNetCDFFile.eval', 'only dimensioned PseudoNetCDFVariable results (%d storing paths)' % nstore)
     else:
-        ctx.violation(Finding('R-VARSTORE', 'core/_files.py', 'PseudoNetCDFFile.eval', 'outf.variables[key] = val',
-                              'eval stores results directly without the dimensioned-variable guard', lineno=mod.func('PseudoNetCDFFile.eval').lineno))
+        ctx.violation(Finding('R-VARSTORE', 'core/_files.py', 'PseudoNetCDFFile.eval', unguarded,
+                              'eval stores results directly without the dimensioned-variable guard'))
     ctx.floor('direct variable-table stores', n, 3)
 
 
